@@ -746,38 +746,37 @@ def enum_cases(tier, seed, rnd=0):
     for fmt in (5, 1, 2):
         # the one legal text pair (all 256 byte values, identity) first, then every numeric pair
         for xt, mt in [(M.NC_CHAR, "text")] + [(x, m) for x in xt_legal(fmt) for m in MTS]:
-            if True:
-                for dr in ("put", "get"):
-                    base = {"fmt": fmt, "xt": xt, "mt": mt, "dir": dr}
-                    sd, dd = case_dtypes(dict(base))
-                    k += 1
-                    if sd.kind in "iu" and sd.itemsize <= 2:
-                        vec = {"mode": "exh", "seed": seed * 1000 + k}
+            for dr in ("put", "get"):
+                base = {"fmt": fmt, "xt": xt, "mt": mt, "dir": dr}
+                sd, dd = case_dtypes(dict(base))
+                k += 1
+                if sd.kind in "iu" and sd.itemsize <= 2:
+                    vec = {"mode": "exh", "seed": seed * 1000 + k}
+                else:
+                    vec = {"mode": "bnd", "seed": seed * 1000 + k, "nrand": nr_var}
+                # API flavour rotates deterministically with the pair and the campaign seed
+                r = k + seed
+                api = {"flex": r % 3 == 0, "form": FORMS[r % 5], "coll": 0 if r % 4 == 0 else 1}
+                for kind in ("var", "att"):
+                    if kind == "att" and vec["mode"] == "bnd":
+                        v2 = dict(vec, nrand=nr_att)      # attribute values live in the header: keep it moderate
                     else:
-                        vec = {"mode": "bnd", "seed": seed * 1000 + k, "nrand": nr_var}
-                    # API flavour rotates deterministically with the pair and the campaign seed
-                    r = k + seed
-                    api = {"flex": r % 3 == 0, "form": FORMS[r % 5], "coll": 0 if r % 4 == 0 else 1}
-                    for kind in ("var", "att"):
-                        if kind == "att" and vec["mode"] == "bnd":
-                            v2 = dict(vec, nrand=nr_att)      # attribute values live in the header: keep it moderate
-                        else:
-                            v2 = dict(vec)
-                        c = dict(base, kind=kind, vec=v2)
-                        if kind == "att":
-                            c["attvar"] = -1 if k % 2 else 0
-                        else:
-                            c["api"] = api
-                        cases.append(c)
-                        if kind == "var" and dr == "put" and xt != M.NC_CHAR:
-                            cases.append(dict(c, fill=fill_for(xt, seed + k)))
-                if xt == M.NC_CHAR:
-                    continue
-                for kind in ("echar_var", "echar_att"):
-                    cases.append({"kind": kind, "fmt": fmt, "xt": xt, "mt": mt})
-                if fmt == 5:
-                    for which in ECHAR_FLEX:
-                        cases.append({"kind": "echar_flex", "fmt": fmt, "xt": xt, "mt": mt, "which": which})
+                        v2 = dict(vec)
+                    c = dict(base, kind=kind, vec=v2)
+                    if kind == "att":
+                        c["attvar"] = -1 if k % 2 else 0
+                    else:
+                        c["api"] = api
+                    cases.append(c)
+                    if kind == "var" and dr == "put" and xt != M.NC_CHAR:
+                        cases.append(dict(c, fill=fill_for(xt, seed + k)))
+            if xt == M.NC_CHAR:
+                continue
+            for kind in ("echar_var", "echar_att"):
+                cases.append({"kind": kind, "fmt": fmt, "xt": xt, "mt": mt})
+            if fmt == 5:
+                for which in ECHAR_FLEX:
+                    cases.append({"kind": "echar_flex", "fmt": fmt, "xt": xt, "mt": mt, "which": which})
     return cases
 
 
